@@ -14,7 +14,7 @@ func implAkaPrf(ik, ck, id []byte) (s string) {
 			s = "fault"
 		}
 	}()
-	a, b, c, d, e, err := eap.EapAkaPrimePRF(ik, ck, string(id))
+	a, b, c, d, e, err := eap.EapAkaPrimePRF(scratchArg(1, ik), scratchArg(2, ck), string(id))
 	if err != nil {
 		return "err"
 	}
@@ -54,33 +54,54 @@ func runC16(c *Ctx) error {
 				id = id[:255]
 			}
 		}
-		cs := fmt.Sprintf("(aka_prf %s %s %s)", hx(ik), hx(ck), hx(id))
-		impl := implAkaPrf(ik, ck, id)
-		r.ImplRuns++
-		mod, err := c.M.Ask(cs)
-		if err != nil {
-			return err
+		// the triple itself, then - for half of them - the same octets with a field boundary moved (CK' | identity,
+		// IK' | CK'), and the same keys with an identity differing in one octet: calls that are nearly, but not, the
+		// call before
+		triples := [][3][]byte{{ik, ck, id}}
+		if c.Rng.Chance(1, 2) {
+			if len(ck) > 1 && len(id) < 255 {
+				triples = append(triples, [3][]byte{ik, ck[:len(ck)-1], append([]byte{ck[len(ck)-1]}, id...)})
+			}
+			if len(ik) > 1 && len(ck) < 64 {
+				triples = append(triples, [3][]byte{ik[:len(ik)-1], append([]byte{ik[len(ik)-1]}, ck...), id})
+			}
+			if len(id) > 0 {
+				id2 := append([]byte(nil), id...)
+				id2[c.Rng.Intn(len(id2))] ^= 1 << uint(c.Rng.Intn(8))
+				triples = append(triples, [3][]byte{ik, ck, id2})
+			}
 		}
-		spec, err := c.M.Ask(fmt.Sprintf("(spec_aka_prf %s %s %s)", hx(ik), hx(ck), hx(id)))
-		if err != nil {
-			return err
-		}
-		bucket := "both-nonempty"
-		if lk == 0 || lc == 0 {
-			bucket = "empty-key"
-		}
-		r.Count(cs, lk > 0 && lc > 0, bucket)
-		r.Sample(cs + " -> " + impl)
-		if impl != mod {
-			r.Add(Finding{Kind: "correspondence", What: "EapAkaPrimePRF differs from Impl.eap_aka_prime_prf", Case: cs, Expected: mod, Observed: impl})
-		}
-		// instance of the property on the implementation's own output
-		want := spec
-		if lk == 0 || lc == 0 {
-			want = "err"
-		}
-		if impl != want {
-			r.Add(Finding{Kind: "instance", What: "keys are not the prescribed slices of PRF'(IK'|CK', \"EAP-AKA'\"|Identity) / empty key not refused", Case: cs, Expected: want, Observed: impl})
+		for _, t := range triples {
+			ik, ck, id := t[0], t[1], t[2]
+			lk, lc := len(ik), len(ck)
+			cs := fmt.Sprintf("(aka_prf %s %s %s)", hx(ik), hx(ck), hx(id))
+			impl := implAkaPrf(ik, ck, id)
+			r.ImplRuns++
+			mod, err := c.M.Ask(cs)
+			if err != nil {
+				return err
+			}
+			spec, err := c.M.Ask(fmt.Sprintf("(spec_aka_prf %s %s %s)", hx(ik), hx(ck), hx(id)))
+			if err != nil {
+				return err
+			}
+			bucket := "both-nonempty"
+			if lk == 0 || lc == 0 {
+				bucket = "empty-key"
+			}
+			r.Count(cs, lk > 0 && lc > 0, bucket)
+			r.Sample(cs + " -> " + impl)
+			if impl != mod {
+				r.Add(Finding{Kind: "correspondence", What: "EapAkaPrimePRF differs from Impl.eap_aka_prime_prf", Case: cs, Expected: mod, Observed: impl})
+			}
+			// instance of the property on the implementation's own output
+			want := spec
+			if lk == 0 || lc == 0 {
+				want = "err"
+			}
+			if impl != want {
+				r.Add(Finding{Kind: "instance", What: "keys are not the prescribed slices of PRF'(IK'|CK', \"EAP-AKA'\"|Identity) / empty key not refused", Case: cs, Expected: want, Observed: impl})
+			}
 		}
 	}
 	return nil
